@@ -175,6 +175,9 @@ def plan(tier, seed):
     if tier == "thorough":
         for k in range(128):
             jobs.append({"sub": "p2c_exh", "p": 5, "shard": k, "nshards": 128, "seed": seed, "cost": 50})
+    for k, (pb, fam) in enumerate([(270, "tree"), (300, "tree_plus"), (290, "band"), (257, "tree_plus")] +
+                                  ([(400, "tree_plus"), (520, "band")] if tier == "thorough" else [])):
+        jobs.append({"sub": "cpdag_big", "seed": seed, "p": pb, "family": fam, "index": k, "cost": 12})
     n1 = scaled(640 if tier == "quick" else 20000)
     n2 = scaled(320 if tier == "quick" else 8000)
     shards = 16 if tier == "quick" else 32
@@ -190,6 +193,31 @@ def run(job):
         _run_cpdag_exh(acc, job)
     elif job["sub"] == "p2c_exh":
         _run_p2c_exh(acc, job)
+    elif job["sub"] == "cpdag_big":
+        # sparse graphs on more than 256 nodes (trees, trees with a few colliders, bands), labels scrambled: most edges are
+        # reversible, so any mis-ordering of the edges shows as a wrongly compelled edge
+        import math
+        pb, fam = job["p"], job["family"]
+        a = next(x for x in range(11 + job["seed"] % 9, 11 + job["seed"] % 9 + 4 * pb) if math.gcd(x, pb) == 1)
+        lab = [(a * k + 5) % pb for k in range(pb)]
+        A = [[0] * pb for _ in range(pb)]
+        for k in range(1, pb):
+            if fam in ("tree", "tree_plus"):
+                A[lab[max(0, k - 1 - (k % 3))]][lab[k]] = 1
+                if fam == "tree_plus" and k % 17 == 0 and k >= 9:
+                    A[lab[k - 9]][lab[k]] = 1                      # a second, non-adjacent parent: a v-structure
+            else:
+                for d in (1, 2):
+                    if k - d >= 0 and (k + d) % 5:
+                        A[lab[k - d]][lab[k]] = 1
+        case = {"sub": "cpdag_hyp", "A": A, "variants": ["int", "weighted"][job["index"] % 2:][:1], "salt": job["index"]}
+        try:
+            lab_ = check(case)
+            acc.record({"sub": "cpdag_big", "p": pb, "family": fam, "a": a}, lab_ + ["p_gt_256"], True, by_construction=True)
+        except Violation as v:
+            acc.record({"sub": "cpdag_big", "p": pb, "family": fam, "a": a}, [], False)
+            acc.violation(case, v)
+        acc.exhaustive = False
     elif job["sub"] == "cpdag_hyp":
         run_property(acc, _cpdag_case(), check, _nontrivial, job["n"], job_seed(job))
         acc.exhaustive = False
